@@ -106,7 +106,7 @@ class A64:
     # ------------------------------------------------------------------ state
     def start(self, symbol, args, objects):
         """AAPCS64: arguments in x0..x7; x30 holds the return address"""
-        self.objects = list(objects)
+        self.objects = list({id(o): o for o in objects}.values())       # an aliased operand is listed once
         self.stack = Obj("stack", 4096, "alloca", 16)
         self.sp0 = 2048
         self.regs = {"x%d" % i: None for i in range(31)}
